@@ -322,6 +322,8 @@ func (c *c02Case) Exec() {
 		case "ack":
 			acked = e.Op + 1
 			inflight = -1
+			// the instant right after an operation returned and before any further system call
+			test(i, fmt.Sprintf("return of step %d", e.Op))
 			continue
 		}
 		if !e.mutating() {
@@ -339,8 +341,11 @@ func (c *c02Case) Exec() {
 			if strings.Contains(f, "flag=1") {
 				p += 8
 			}
+			if !strings.Contains(f, "wal=0") {
+				p += 4 // acknowledged operations that exist in the WAL only
+			}
 			if strings.Contains(f, "wal=2") || strings.Contains(f, "wal=3") {
-				p += 4
+				p += 2
 			}
 			if strings.Contains(f, "wal=3") {
 				p += 2
@@ -354,18 +359,45 @@ func (c *c02Case) Exec() {
 			return p
 		}
 		sort.SliceStable(saved, func(i, j int) bool { return prio(saved[i].feat) > prio(saved[j].feat) })
+		// round robin over the kinds of recovery work, so that every kind gets its share of the budget
+		class := func(f string) string {
+			switch {
+			case !strings.Contains(f, "wal=0") && !strings.Contains(f, "flag=1"):
+				return "wal"
+			case strings.Contains(f, "flag=1"):
+				return "flag"
+			case !strings.Contains(f, "partial=0"):
+				return "partial"
+			}
+			return "other"
+		}
+		groups := map[string][]savedImg{}
+		for _, si := range saved {
+			groups[class(si.feat)] = append(groups[class(si.feat)], si)
+		}
 		done := map[string]int{}
 		n := 0
-		for _, si := range saved {
-			if n >= c.Nest {
-				break
+		for round := 0; n < c.Nest && round < len(saved); round++ {
+			for _, cl := range []string{"wal", "flag", "partial", "other"} {
+				g := groups[cl]
+				// next image of this class whose feature string was used least
+				best := -1
+				for i, si := range g {
+					if si.path == "" {
+						continue
+					}
+					if best < 0 || done[si.feat] < done[g[best].feat] {
+						best = i
+					}
+				}
+				if best < 0 || n >= c.Nest {
+					continue
+				}
+				done[g[best].feat]++
+				n++
+				nestOn(g[best])
+				g[best].path = ""
 			}
-			if done[si.feat] >= 2 {
-				continue
-			}
-			done[si.feat]++
-			n++
-			nestOn(si)
 		}
 	}
 }
@@ -555,11 +587,16 @@ func genC02(r *rand.Rand, tier string) []Case {
 	}
 	var cases []Case
 	for i := 0; i < n; i++ {
-		cases = append(cases, genCrashCase(r, false, 0, 8+r.Intn(12), false))
+		nest := 0
+		if i%4 == 0 {
+			nest = 4 // kills during the re-open itself (a session continues after a kill)
+		}
+		cases = append(cases, genCrashCase(r, false, nest, 8+r.Intn(12), false))
 	}
 	for i := 0; i < (n+3)/4; i++ {
-		cases = append(cases, genTinyCrashCase(r, false, 0))
+		cases = append(cases, genTinyCrashCase(r, false, 0), genTinyCrashCase(r, false, 0))
 	}
+	cases = append(cases, genHotKeyCrashCase(r, false))
 	return cases
 }
 
@@ -572,14 +609,45 @@ func genC13(r *rand.Rand, tier string) []Case {
 	for i := 0; i < n; i++ {
 		cases = append(cases, genCrashCase(r, true, 0, 8+r.Intn(12), i == 0))
 	}
-	cases = append(cases, genTinyCrashCase(r, true, 0))
+	cases = append(cases, genTinyCrashCase(r, true, 0), genTinyCrashCase(r, true, 0), genHotKeyCrashCase(r, true))
 	return cases
 }
 
 // self-rotating sessions: every Put rotates, the flush overlaps the next operations, so kill images
 // hold several non-empty WAL files with conflicting values for the same keys
+// hot-key sessions with a small memstore limit: one key is overwritten many times, so the WAL grows far beyond the
+// memstore limit while the memstore stays small; then other keys, a rotation and more overwrites
+func genHotKeyCrashCase(r *rand.Rand, async bool) *c02Case {
+	keys := [][]byte{[]byte("hot"), []byte("k1"), []byte("k2")}
+	c := &c02Case{Keys: keys}
+	c.Opts = dbOpts{MemstoreBytes: uint64(120 + r.Intn(100)), Threshold: 10, MaxSize: 5 << 30, RatioPct: 100, WBuf: 4096, RBuf: 4096, AsyncWAL: async}
+	for j := 0; j < 25+r.Intn(15); j++ {
+		c.Steps = append(c.Steps, dbStep{Op: "put", K: keys[0], V: []byte(fmt.Sprintf("gen1-%04d", j))})
+	}
+	c.Steps = append(c.Steps, dbStep{Op: "put", K: keys[1], V: bytes.Repeat([]byte("x"), 200)}) // exceeds the limit: rotation
+	c.Steps = append(c.Steps, dbStep{Op: "rotate"})
+	for j := 0; j < 5; j++ {
+		c.Steps = append(c.Steps, dbStep{Op: "put", K: keys[0], V: []byte(fmt.Sprintf("final-%d", j))})
+	}
+	c.Steps = append(c.Steps, dbStep{Op: "put", K: keys[2], V: []byte("z")}, dbStep{Op: "rotate"}, dbStep{Op: "close"})
+	return c
+}
+
 func genTinyCrashCase(r *rand.Rand, async bool, nest int) *c02Case {
 	keys := [][]byte{[]byte("key0"), []byte("key1")}
+	if r.Intn(2) == 0 {
+		// distinct keys: a lost operation in the middle shows as a hole
+		keys = nil
+		for k := 0; k < 10; k++ {
+			keys = append(keys, []byte(fmt.Sprintf("key%d", k)))
+		}
+		c := &c02Case{Keys: keys, Nest: nest}
+		c.Opts = dbOpts{MemstoreBytes: 1, Threshold: 10, MaxSize: 5 << 30, RatioPct: 100, WBuf: 4096, RBuf: 4096, AsyncWAL: async}
+		for j := 0; j < 8; j++ {
+			c.Steps = append(c.Steps, dbStep{Op: "put", K: keys[j], V: []byte(fmt.Sprintf("val%d", j))})
+		}
+		return c
+	}
 	c := &c02Case{Keys: keys, Nest: nest}
 	c.Opts = dbOpts{MemstoreBytes: 1, Threshold: 10, MaxSize: 5 << 30, RatioPct: 100, WBuf: 4096, RBuf: 4096, AsyncWAL: async}
 	for j := 0; j < 6+r.Intn(5); j++ {
